@@ -289,9 +289,8 @@ def rule_f(ctx: Ctx) -> None:
     ctx.explain('C03.f: the fixed-value report of XsdAttribute.raw_decode is guarded by a comparison of decoded values.')
 
 
-def rule_g(ctx: Ctx) -> None:
+def rule_g(ctx: Ctx, rule: str = 'C03.g') -> None:
     from .common import copy_owns
-    rule = 'C03.g'
     copy_owns(ctx, rule, 'xmlschema.validators.wildcards.XsdWildcard', ('intersection', 'union'), floor=2)
     # the attribute-group parser applies these operations to copies, never to the referenced group's own wildcard
     f = ctx.idx.func('xmlschema.validators.attributes.XsdAttributeGroup._parse')
@@ -311,7 +310,7 @@ def rule_g(ctx: Ctx) -> None:
         ctx.ob(rule, f'XsdAttributeGroup._parse: `{text(c)[:40]}` is applied to a wildcard this group owns (a copy or a locally parsed one)', f.loc(c), ok,
                '', key=f'attributes._parse|{c.func.attr}|{recv}')
     ctx.floor(rule, 'wildcard combination sites in XsdAttributeGroup._parse', n, 2)
-    ctx.explain('C03.g: the namespace-constraint sets that intersection()/union() mutate in place are re-created by XsdWildcard.__copy__, '
+    ctx.explain(f'{rule}: the namespace-constraint sets that intersection()/union() mutate in place are re-created by XsdWildcard.__copy__, '
                 'and the attribute-group parser combines only wildcards it owns.')
 
 
